@@ -174,6 +174,16 @@ def check_program(env, prog, label, ndata, std):
     for v in valid:
         data += gen_data.mutants(v, rng, atoms, max(2, ndata // 8))
     data += [gen_data.deep_json(rng) for _ in range(max(1, ndata // 10))]
+    if label.startswith("directed:rec"):
+        # recursive shapes: nested instances with every small number of properties (the constraints sit on the back-reference)
+        for v in valid:
+            if isinstance(v, dict):
+                prim = {k: x for k, x in v.items() if not isinstance(x, (dict, list)) and x is not None}
+                for c in ({}, prim, {**prim, "zz_extra": 1}):
+                    for k in v:
+                        for wrapped in (c, [c], {"k": c}, [c, c]):
+                            data.append({**prim, k: wrapped})
+                            data.append({**prim, k: {**c, k: wrapped}} if isinstance(c, dict) else {**prim, k: wrapped})
     optsig = (cx.additional_properties, cx.aliaser, all_refs, percall is not None)
     for d in data:
         if has_int_valued_float(d):
